@@ -115,9 +115,16 @@ FamD ==
                                  [e \in es |-> (e[1] + 2 * e[2]) % 4])))] :
         es \in SUBSET Pairs4, al \in {"queue", "batch"}}
 
+(* ---- family TX: one observation larger than 60 % of the hot buffer: it is moved *)
+(* to the cold tier and never comes back (expected failure, KF-C05-strand)        *)
+FamTX ==
+    {[Base EXCEPT !.order = <<"a">>, !.obs = ("a" :> MkObs(0, d, 1, 1, 1, Single(1))),
+                  !.mach = Mach2, !.hotCap = 10, !.coldCap = 10, !.alg = al] :
+        d \in {7, 8}, al \in {"batch", "queue"}}
+
 CONSTANT FamilyName
 Fam == CASE FamilyName = "A" -> FamA [] FamilyName = "P" -> FamP [] FamilyName = "W" -> FamW
-               [] FamilyName = "V" -> FamV [] FamilyName = "B" -> FamB [] FamilyName = "BX" -> FamBX [] FamilyName = "A3" -> FamA3 [] FamilyName = "S" -> FamS [] FamilyName = "D" -> FamD
+               [] FamilyName = "V" -> FamV [] FamilyName = "B" -> FamB [] FamilyName = "BX" -> FamBX [] FamilyName = "A3" -> FamA3 [] FamilyName = "S" -> FamS [] FamilyName = "D" -> FamD [] FamilyName = "TX" -> FamTX
 MCConfigs == {c \in Fam : FeasibleCfg(c)}
 
 (* ------------------------------ properties -------------------------------- *)
